@@ -131,6 +131,10 @@ def run(tier, repo):
             elif kind == "BoundsCheck":
                 ok, why = const_index_guarded(node, fs, env, fw)
                 if not ok:
+                    ok2, why2 = enum_table_index(node, F)
+                    if ok2:
+                        ok, why = ok2, why2
+                if not ok:
                     ok, why = chunk_index(node, parents, fs, env, fw)
                 rp.check(ok, "PANIC-SITE", key + "/" + text_key(node), where, "index can be out of bounds: " + why, why_ok="CHUNKS-INDEX: " + why)
             else:
@@ -337,10 +341,28 @@ def const_index_guarded(node, fs, env, fw):
     if why:
         return True, "index %d and %s" % (idx["v"], why)
     if base[0] == "tokbytes":
-        why = entails_ge(fs, ["remaining"], idx["v"] + 1)
+        why = entails_ge(fs, ["remaining_at"] + base[1:], idx["v"] + 1) or entails_ge(fs, ["remaining"], idx["v"] + 1)
         if why:
             return True, "index %d and %s" % (idx["v"], why)
     return False, "no dominating guard establishes len >= %d" % (idx["v"] + 1)
+
+
+def enum_table_index(node, F):
+    """TABLE[e as usize] where e is a fieldless enum all of whose discriminants are below the length of the fixed-size array TABLE"""
+    import re as _re
+    idx = strip(node["i"])
+    if idx.get("k") != "cast" or idx.get("ty") != "usize":
+        return False, "index is not an enum cast"
+    adt = F.adts.get(idx.get("from", ""))
+    if adt is None or adt.get("dk") != "Enum" or not adt["variants"] or any(v["fields"] or "discr" not in v for v in adt["variants"]):
+        return False, "index is not a cast of a fieldless enum"
+    m = _re.fullmatch(r"&?\[.*; (\d+)(?:_usize)?\]", strip(node["x"]).get("ty", ""))
+    if not m:
+        return False, "indexed value is not a fixed-size array"
+    top = max(v["discr"] for v in adt["variants"])
+    if top < int(m.group(1)):
+        return True, "discriminants of %s are 0..=%d, array length %s" % (adt["path"], top, m.group(1))
+    return False, "discriminant %d of %s reaches the array length %s" % (top, adt["path"], m.group(1))
 
 
 def chunk_index(node, parents, fs, env, fw):
